@@ -577,7 +577,10 @@ def run_newton(task):
     # constant is then set to the task's value through the EOS's public setter and solve_jump_conditions() is called again -- the
     # state it reports as converged must satisfy the jump conditions of the EOS as it now is (added after the seeded change
     # S3-C16-3: solve_jump_conditions() returned early when a solution was cached)
-    modes = ["frontend", "one-newton-object"] + (["re-solve-after-eos-setter"] if tag[0] in RESOLVE_SETTERS else [])
+    # fourth mode: the public iteration cap lowered to 3 -- the solve either raises (no convergence reported) or reports a state,
+    # and a reported state must satisfy the jump conditions (added after the seeded change S4-C16-2: the cap test folded into the
+    # loop condition, so the last iterate was returned as the solution)
+    modes = ["frontend", "one-newton-object"] + (["re-solve-after-eos-setter"] if tag[0] in RESOLVE_SETTERS else []) + ["iteration-cap-3"]
     for mode, (label, guess) in [(m_, lg) for m_ in modes for lg in newton_guesses(tag, tier, (r0, u0, p0))]:
         if mode == "re-solve-after-eos-setter":
             idx, setter, fac = RESOLVE_SETTERS[tag[0]]
@@ -617,6 +620,18 @@ def run_newton(task):
             with contextlib.redirect_stdout(io.StringIO()):
                 if mode == "frontend":
                     s.solve_jump_conditions()
+                elif mode == "iteration-cap-3":
+                    # the front end's set_new_solver_max_iterations() keeps the number but never hands it to its newton_solver, and
+                    # that newton_solver is ONE object shared by every black-box Noh instance (class attribute): the cap is set on it
+                    # directly and restored afterwards, so that no later solve of this process inherits it
+                    s.set_new_solver_max_iterations(3)
+                    old_cap = s.solver.max_iterations
+                    s.solver.set_new_max_iteration(3)
+                    try:
+                        s.solve_jump_conditions()
+                    finally:
+                        s.solver.set_new_max_iteration(old_cap)
+                    C["solves_reported_under_iteration_cap_3"] = C.get("solves_reported_under_iteration_cap_3", 0) + 1
                 elif mode == "re-solve-after-eos-setter":
                     try:
                         s.solve_jump_conditions()
